@@ -354,7 +354,13 @@ func c16Record(path, q string) (msg string) {
 	if msg := c16ViewsAgree(sh); msg != "" {
 		return "after loading the file: " + msg
 	}
+	repeat := first > 0 && sh.Entries[first-1].Query == q
 	sh.AddEntry(q, 3, "", 5*time.Millisecond)
+	// whatever the file held (more entries than its own maximum, entries that made the load fail half-way):
+	// once a new search is recorded the log is within its maximum again
+	if !repeat && (sh.MaxSize <= 0 || len(sh.Entries) > sh.MaxSize) {
+		return fmt.Sprintf("after recording the new search %q the history holds %d entries, maximum %d", q, len(sh.Entries), sh.MaxSize)
+	}
 	if msg := c16ViewsAgree(sh); msg != "" {
 		return "after loading the file and recording a search: " + msg
 	}
@@ -375,6 +381,9 @@ func c16Record(path, q string) (msg string) {
 	fresh.AddEntry(q+" again", 1, "", time.Millisecond)
 	if fresh.Entries[len(fresh.Entries)-1].Query != q+" again" {
 		return "second recording lost"
+	}
+	if len(fresh.Entries) > fresh.MaxSize {
+		return fmt.Sprintf("after save, reload and another search the history holds %d entries, maximum %d", len(fresh.Entries), fresh.MaxSize)
 	}
 	return ""
 }
